@@ -683,11 +683,14 @@ def evaluate_posdef_kinetic_energy_density(
             transform=transform,
             deriv_type=deriv_type,
         )
+    # the kinetic energy density is half of the sum of the three second-order terms; the threshold
+    # applies to the kinetic energy density itself
+    output *= 0.5
     # Fix #117: check magnitude of small negative density values, then use clip to remove them
     min_output = np.min(output)
     if min_output < 0.0 and abs(min_output) > threshold:
         raise ValueError(f"Found negative density <= {-threshold}, got {min_output}.")
-    return (0.5 * output).clip(min=0.0)
+    return output.clip(min=0.0)
 
 
 # TODO: test against a reference
